@@ -115,10 +115,12 @@ func NewVM(
 func hostcall(self *VM, function string, span errors.Span, args []*value.Value) (*value.Value, *value.VmInterrupt) {
 	switch function {
 	case "__internal_list_push":
-		elem := args[0]
+		// The element gets its own cell: the operand may be the cell of a variable (`[x]`),
+		// and scalars are copied, not shared (lists / objects stay shared through their value).
+		elem := *args[0]
 		list := (*args[1]).(value.ValueList)
 
-		(*list.Values) = append((*list.Values), elem)
+		(*list.Values) = append((*list.Values), &elem)
 		return args[1], nil
 	case "@trigger":
 		callback := (*args[0]).(value.ValueString).Inner
